@@ -53,7 +53,50 @@ fn synth_hinted(k: u8, failing_prep: bool) -> Vec<u8> {
     truetype_font(&[Glyph::Empty, outline(g1), outline(g2), outline(vec![])], &opts).expect("synthetic hinted font")
 }
 
+/// S4: the control value program changes *graphics state* depending on the size: below 11 ppem the control
+/// value cut-in becomes 0, above 30 ppem glyph programs are switched off (INSTCTRL). Glyph 1 shows the cut-in
+/// through MIAP[round] of point 2 to a CVT entry less than a pixel away from the original position.
+fn synth_gs() -> Vec<u8> {
+    let fpgm = vec![0xB0, 0, 0x2C, 0xB0, 16, 0x2D];
+    let prep: Vec<u8> = vec![
+        0x4B, 0xB0, 11, 0x50, 0x58, // MPPEM; PUSHB 11; LT; IF
+        0xB0, 0, 0x1D, // PUSHB 0; SCVTCI
+        0x59, // EIF
+        0x4B, 0xB0, 30, 0x52, 0x58, // MPPEM; PUSHB 30; GT; IF
+        0xB1, 1, 1, 0x8E, // PUSHB[2] 1 1; INSTCTRL (glyph programs off)
+        0x59, // EIF
+    ];
+    let g1: Vec<u8> = vec![0x00, 0xB1, 2, 1, 0x3F]; // SVTCA[y]; PUSHB[2] point 2, cvt 1; MIAP[1]
+    let outline = |instr: Vec<u8>| {
+        let pts = vec![CurvePoint::new(0, 0, true), CurvePoint::new(500, 0, true), CurvePoint::new(500, 300, true), CurvePoint::new(250, 600, true), CurvePoint::new(0, 300, true)];
+        Glyph::Simple(SimpleGlyph { bbox: Bbox { x_min: 0, y_min: 0, x_max: 500, y_max: 600 }, contours: vec![Contour::from(pts)], instructions: instr })
+    };
+    let cvt: Vec<u8> = [0i16, 360, 0].iter().flat_map(|v| v.to_be_bytes()).collect();
+    let opts = SynthOpts { maxp_hint: (2, 4, 2, 1, 64), extra: vec![(Tag::new(b"fpgm"), fpgm), (Tag::new(b"prep"), prep), (Tag::new(b"cvt "), cvt)], ..Default::default() };
+    truetype_font(&[Glyph::Empty, outline(g1), outline(vec![])], &opts).expect("synthetic graphics-state font")
+}
+
+/// S5: degenerate contours (a single on-curve point, a single off-curve point, off+on, all off-curve) next to
+/// ordinary ones - the emitted path must still be (Move Seg* Close)*.
+fn synth_degenerate() -> Vec<u8> {
+    let tri = || Contour::from(vec![CurvePoint::new(0, 0, true), CurvePoint::new(500, 0, true), CurvePoint::new(250, 600, true)]);
+    let mk = |contours: Vec<Contour>| Glyph::Simple(SimpleGlyph { bbox: Bbox { x_min: 0, y_min: 0, x_max: 700, y_max: 700 }, contours, instructions: vec![] });
+    let glyphs = vec![
+        Glyph::Empty,
+        mk(vec![Contour::from(vec![CurvePoint::new(100, 100, true)]), tri()]),
+        mk(vec![tri(), Contour::from(vec![CurvePoint::new(100, 100, true)])]),
+        mk(vec![Contour::from(vec![CurvePoint::new(700, 700, false)]), tri()]),
+        mk(vec![Contour::from(vec![CurvePoint::new(600, 100, false), CurvePoint::new(700, 700, true)]), tri()]),
+        mk(vec![Contour::from(vec![CurvePoint::new(600, 100, true), CurvePoint::new(700, 700, false)]), tri()]),
+        mk(vec![Contour::from(vec![CurvePoint::new(600, 100, false), CurvePoint::new(700, 700, false), CurvePoint::new(300, 650, false)])]),
+        mk(vec![Contour::from(vec![CurvePoint::new(600, 100, true), CurvePoint::new(700, 700, true)])]),
+        mk(vec![Contour::from(vec![CurvePoint::new(100, 100, true)])]),
+    ];
+    truetype_font(&glyphs, &SynthOpts::default()).expect("synthetic degenerate-contour font")
+}
+
 pub struct Config {
+    pub engine: Engine,
     pub id: usize,
     pub name: &'static str,
     pub font: Vec<u8>,
@@ -67,8 +110,9 @@ fn smooth() -> Target {
 }
 
 pub fn catalogue() -> Vec<Config> {
-    let c = |id, name, font: Vec<u8>, size, coords: &[f32], target| Config { id, name, font, size, coords: coords.to_vec(), target };
-    vec![
+    let c = |id, name, font: Vec<u8>, size, coords: &[f32], target| Config { engine: Engine::AutoFallback, id, name, font, size, coords: coords.to_vec(), target };
+    let ci = |id, name, font: &[u8], size, coords: &[f32], target| Config { engine: Engine::Interpreter, id, name, font: font.to_vec(), size, coords: coords.to_vec(), target };
+    let mut v = vec![
         c(1, "S1@16 mono", synth_hinted(1, false), 16.0, &[], Target::Mono),
         c(2, "S2@16 mono", synth_hinted(2, false), 16.0, &[], Target::Mono),
         c(3, "S1@12 smooth", synth_hinted(1, false), 12.0, &[], smooth()),
@@ -81,7 +125,19 @@ pub fn catalogue() -> Vec<Config> {
         c(10, "cantarell-cff2@16", font_test_data::CANTARELL_VF_TRIMMED.to_vec(), 16.0, &[0.7], smooth()),
         c(11, "hebrew-autohint@16", font_test_data::NOTOSERIFHEBREW_AUTOHINT_METRICS.to_vec(), 16.0, &[], smooth()),
         c(12, "S3 failing prep", synth_hinted(1, true), 16.0, &[], Target::Mono),
-    ]
+        // configurations whose control value program leaves different *graphics state* behind
+        c(13, "tinos@7", font_test_data::TINOS_SUBSET.to_vec(), 7.0, &[], smooth()),
+        c(14, "S4@10 mono (cut-in 0)", synth_gs(), 10.0, &[], Target::Mono),
+        c(15, "S4@16 mono", synth_gs(), 16.0, &[], Target::Mono),
+        c(16, "S4@40 mono (glyph programs off)", synth_gs(), 40.0, &[], Target::Mono),
+        // degenerate contours, and variable fonts at their default location through the interpreter
+        c(17, "S5 degenerate contours@16", synth_degenerate(), 16.0, &[], Target::Mono),
+        ci(18, "avar2-checker@16 default", font_test_data::AVAR2_CHECKER, 16.0, &[], smooth()),
+        ci(19, "vazirmatn@13 default", font_test_data::VAZIRMATN_VAR, 13.0, &[], Target::Mono),
+        ci(20, "colrv0v1-variable@13 default", font_test_data::COLRV0V1_VARIABLE, 13.0, &[], smooth()),
+    ];
+    v.truncate(20);
+    v
 }
 
 #[derive(Default)]
@@ -149,7 +205,7 @@ fn location(font: &FontRef, coords: &[f32]) -> Location {
 }
 
 fn options(cfg: &Config) -> HintingOptions {
-    HintingOptions { engine: Engine::AutoFallback, target: cfg.target }
+    HintingOptions { engine: cfg.engine.clone(), target: cfg.target }
 }
 
 /// (outcome string, wellformed) of drawing one glyph through `inst`
@@ -282,12 +338,15 @@ fn run_variants(cfg: &Config, ev: &mut Vec<Value>, rep: &mut Report) {
     if cfg.coords.iter().all(|c| *c == 0.0) {
         let zero = location(&font, &[]);
         let mut same = true;
-        if let (Ok(a), Ok(b)) = (HintingInstance::new(&outlines, Size::new(cfg.size), LocationRef::default(), options(cfg)), HintingInstance::new(&outlines, Size::new(cfg.size), &zero, options(cfg))) {
-            for gid in &gids {
-                if draw_one(&font, *gid, &a, false, None) != draw_one(&font, *gid, &b, false, None) {
-                    same = false;
-                    rep.violation(&format!("{}: glyph {gid} differs between no location and an all-zero location", cfg.name), json!({"kind": "hint-variant", "cfg": cfg.id}));
-                    break;
+        'sizes: for size in [cfg.size, 8.0, 13.0, 21.0] {
+            if let (Ok(a), Ok(b)) = (HintingInstance::new(&outlines, Size::new(size), LocationRef::default(), options(cfg)), HintingInstance::new(&outlines, Size::new(size), &zero, options(cfg))) {
+                for gid in &gids {
+                    let (x, y) = (draw_one(&font, *gid, &a, false, None), draw_one(&font, *gid, &b, false, None));
+                    if x != y {
+                        same = false;
+                        rep.violation(&format!("{}: glyph {gid} at {size} ppem differs between no location and an all-zero location: {} vs {}", cfg.name, x.0.chars().take(200).collect::<String>(), y.0.chars().take(200).collect::<String>()), json!({"kind": "hint-variant", "cfg": cfg.id}));
+                        break 'sizes;
+                    }
                 }
             }
         }
@@ -350,13 +409,13 @@ pub fn main(args: &[String]) {
         }
         Some("probe") => {
             // print what the synthetic fonts make observable (debugging aid)
-            for id in [1usize, 2, 3, 4, 12] {
+            for id in [1usize, 2, 3, 4, 12, 14, 15, 16, 17] {
                 let cfg = &cat[id - 1];
                 let font = FontRef::new(&cfg.font).unwrap();
                 let outlines = font.outline_glyphs();
                 match HintingInstance::new(&outlines, Size::new(cfg.size), LocationRef::default(), options(cfg)) {
                     Ok(inst) => {
-                        for gid in 1..4 {
+                        for gid in 1..9 {
                             println!("{} glyph {gid}: {}", cfg.name, draw_one(&font, gid, &inst, false, None).0);
                         }
                     }
